@@ -1,6 +1,9 @@
+//@ variant: slot0 SLOT=0
+//@ variant: slot1 SLOT=1
 //@ tu: libxcm/ctl/ctl.c
 //@ enforce: process_client
 //@ replace: client_send client_receive
+//@ defs: -DXV_CTL_SLOT=$SLOT
 //@ props: C14
 //@ expect: postcondition>=2 canary=2
 #include "_unit.h"
@@ -9,9 +12,11 @@ void harness(void)
     xv_ghost_havoc();
     xv_ctl_ghost_havoc();
     xv_ctl_g_foreign = nondet_bool(); xv_ctl_g_fev = nondet_int();
-    struct client *client = NULL;   /* (not left uninitialised: symex would add a 38 KB "unknown object" of type struct client to its points-to set; pointer_in_range in the contract assigns it) */
+    static char dummy[8];
+    struct client *client = (struct client *)dummy;   /* any valid address (pointer_equals in the contract re-assigns it); left uninitialised,
+        symex adds a 38 KB "unknown object" of type struct client to the points-to set of every access through it */
     struct ctl *ctl;
-    long s0 = xv_ctl_send_calls;
+    unsigned long s0 = xv_ctl_send_calls;
     int rv = process_client(client, ctl);
     if (xv_ctl_send_calls != s0) XV_CANARY("reply pending: sent");
     if (xv_ctl_send_calls == s0 && rv == -1) XV_CANARY("no reply pending: received, session to be dropped");
